@@ -131,9 +131,23 @@ SidecarBlocks(kind, sc) ==                         \* one block per present side
     IN [k \in 1..Len(idx) |->
           [name |-> "+" \o EaExts[idx[k]].name, lines |-> Prefixed(CodeLinesOf(kind, sc[idx[k]]))]]
 
-\* names of the blocks of one item, as coded: +INFO, +ADMIN, +VIEWS, then the sidecars
-CodeBlockNames(kind, sc) ==
-    <<"+INFO", "+ADMIN", "+VIEWS">> \o [k \in 1..Len(SidecarBlocks(kind, sc)) |-> SidecarBlocks(kind, sc)[k].name]
+\* An item may ALSO have an entry in a UMN link file of its directory (.Links / .names block with Path=./name) or a
+\* .cap/<name> file, with or without Abstract=.  While the parent is listed (`$`) UMN.mergeentries sets every attribute of
+\* the link entry on the item and leaves its other attributes alone; `!` on the item never sees the link entry.
+LinkKinds == {"none", "cap", "capabs", "links", "linksabs"}
+HasLinkAbs(link) == link \in {"capabs", "linksabs"}
+LinkAbstract == "Abstract from the link file"
+ItemBlocks(kind, sc, form, link) ==
+    LET base == SidecarBlocks(kind, sc)
+        ab == [name |-> "+ABSTRACT", lines |-> <<" " \o LinkAbstract>>]
+    IN IF ~(HasLinkAbs(link) /\ form = "dollar") THEN base
+       ELSE IF \E k \in 1..Len(base) : base[k].name = "+ABSTRACT"
+       THEN [k \in 1..Len(base) |-> IF base[k].name = "+ABSTRACT" THEN ab ELSE base[k]]     \* dict key keeps its place
+       ELSE Append(base, ab)                                                              \* new key goes last
+
+\* names of the blocks of one item, as coded: +INFO, +ADMIN, +VIEWS, then the attributes
+CodeBlockNames(kind, sc, form, link) ==
+    <<"+INFO", "+ADMIN", "+VIEWS">> \o [k \in 1..Len(ItemBlocks(kind, sc, form, link)) |-> ItemBlocks(kind, sc, form, link)[k].name]
 
 --------------------------------------------------------------------------------
 (* Property clauses over an OBSERVED item  it = [info, blocks]  with                         *)
@@ -168,20 +182,21 @@ ViewsTruthful(it, mimes, size, must) ==
     LET vs == BlocksNamed(it, "+VIEWS")
     IN Len(vs) = 1 /\ Len(vs[1].lines) = 1 /\ ViewsLineOk(vs[1].lines[1], mimes, size, must)
 
-SidecarExact(it, sc) ==
+\* absfree: the item's abstract may come from a link file (C08's business): the +ABSTRACT block is then not judged here
+SidecarExact(it, sc, absfree) ==
     \A i \in 1..Len(EaExts) :
         LET bs == BlocksNamed(it, "+" \o EaExts[i].name)
-        IN IF sc[i].p
+        IN IF absfree /\ EaExts[i].name = "ABSTRACT" THEN TRUE
+           ELSE IF sc[i].p
            THEN Len(bs) = 1 /\ (Printable(sc[i].lines) => bs[1].lines = Prefixed(RefLines(sc[i].lines)))
            ELSE Len(bs) = 0
 
-\* as coded (design level): same, with the lines the pipeline above produces
-SidecarAsCoded(it, kind, sc) ==
-    \A i \in 1..Len(EaExts) :
-        LET bs == BlocksNamed(it, "+" \o EaExts[i].name)
-        IN IF sc[i].p
-           THEN Len(bs) = 1 /\ bs[1].lines = Prefixed(CodeLinesOf(kind, sc[i]))
-           ELSE Len(bs) = 0
+\* as coded (design level): exactly the blocks ItemBlocks gives, with the lines the pipeline above produces
+SidecarAsCoded(it, kind, sc, form, link) ==
+    LET ib == ItemBlocks(kind, sc, form, link) IN
+    /\ \A k \in 1..Len(ib) : LET bs == BlocksNamed(it, ib[k].name) IN Len(bs) = 1 /\ bs[1].lines = ib[k].lines
+    /\ \A i \in 1..Len(EaExts) : (\A k \in 1..Len(ib) : ib[k].name # "+" \o EaExts[i].name)
+                                      => Len(BlocksNamed(it, "+" \o EaExts[i].name)) = 0
 
 IsNat(s) == TX!IsDigits(s)
 \* first line of a `+` answer: +N with exactly N bytes following (N the document's length), or a marker
